@@ -309,7 +309,9 @@ func scenarioC12(c *hlib.RunCtx) *hlib.Violation {
 			}
 			wantValid, why = false, "arbitrary bytes"
 		case 6: // well-formed JSON of the wrong shape
-			body = []byte([]string{`[]`, `"report"`, `{"Week":5}`, `{"X":"0.5"}`, `{"Programs":{}}`, `null`, `{"Week":"2024-01-01","X":0.5,"Config":"v1.0.0","Programs":[{"Counters":{"a":"b"}}]}`}[t.Draw(7)])
+			body = []byte([]string{`[]`, `"report"`, `{"Week":5}`, `{"X":"0.5"}`, `{"Programs":{}}`, `null`, `{"Week":"2024-01-01","X":0.5,"Config":"v1.0.0","Programs":[{"Counters":{"a":"b"}}]}`,
+				`{"Week":"2024-01-01","X":0.5,"Config":"v1.0.0","Programs":[null]}`, `{"Week":"2024-01-01","X":0.5,"Config":"v1.0.0","Programs":[{"Program":"example.com/gopls","Counters":null,"Stacks":null},null]}`,
+				`{"Week":"2024-01-01","X":1e999,"Config":"v1.0.0"}`, `{"Week":"2024-01-01","X":0.5,"Config":"v1.0.0","Programs":[[]]}`}[t.Draw(11)])
 			wantValid, why = false, "wrong shape "+string(body)
 			if string(body) == "null" {
 				wantValid, why = false, "null" // decodes to the zero report: week invalid
